@@ -33,7 +33,7 @@ CHECKS = {
     },
     'C07': {
         'technique': 'runtime monitoring: RFC 7748 ladder reference checker over recorded X25519 / Montgomery / conversion logs incl. iterated-vector history',
-        'text': '(k,u) over constructed u classes (small order, twist, non-canonical, bit 255) through x25519(), all typed DH secrets, Montgomery*Scalar, mul_clamped, mul_bits_be; both-party agreement using driver-computed public keys; birational conversions with exceptional points; equality/hash mod p; RFC 7748 iteration (1000 quick / 20000 thorough steps) executed by the driver.',
+        'text': '(k,u) over constructed u classes (small order, twist, non-canonical, bit 255) through x25519(), all typed DH secrets, Montgomery*Scalar, mul_clamped, mul_bits_be; both-party agreement using driver-computed public keys; birational conversions with exceptional points; equality/hash mod p; RFC 7748 iteration (1000 quick / 100000 thorough steps) executed by the driver.',
         'note': ORACLE,
     },
     'C08': {
